@@ -224,6 +224,39 @@ def s_next_decided(vc):
         vc.ensure("buffered_in_order", len(evs) == n + 1 and all(a is b for a, b in zip(evs, old + [ev])))
 
 
+@scenario("nextlayer.undecided.every_event_is_buffered", functions=[N + "._handle_event", N + "._ask"])
+def s_next_buffers(vc):
+    """While no layer has been chosen every event - data, Start, and close events of either connection - is kept in arrival
+    order for the later replay; only a close of the *client* makes the NextLayer give up (CloseConnection(client))."""
+    n = vc.case("buffered", [0, 2])
+    kind = vc.case("event", ["closed.server", "closed.client", "start.no_ask", "data.undecided"])
+    ctx = mk_context(vc)
+    old = [vc.new("mitmproxy.proxy.events:DataReceived", connection=ctx.client, data=vc.sym_bytes(f"d{i}")) for i in range(n)]
+    nl = vc.new(N, context=ctx, debug=None, _paused=None, _paused_event_queue=vc.deque([]), layer=None, events=vc.list(old),
+                _ask_on_start=False, _handle=None)
+    if kind == "closed.server":
+        ev = vc.new("mitmproxy.proxy.events:ConnectionClosed", connection=ctx.server)
+    elif kind == "closed.client":
+        ev = vc.new("mitmproxy.proxy.events:ConnectionClosed", connection=ctx.client)
+    elif kind == "start.no_ask":
+        ev = vc.new("mitmproxy.proxy.events:Start")
+    else:
+        ev = vc.new("mitmproxy.proxy.events:DataReceived", connection=ctx.server, data=vc.sym_bytes("new"))
+    out = vc.call(N + "._handle_event", nl, ev, on_yield=lambda cmd: None)   # the hook (if any) decides nothing
+    vc.ensure("no_exception", out.ok)
+    if not out.ok:
+        return
+    evs = nl.events.items if vc.mode == "sym" else nl.events
+    vc.ensure("buffered_in_arrival_order", len(evs) == n + 1 and all(a is b for a, b in zip(evs, old + [ev])))
+    kinds = trace_kinds(out.trace)
+    if kind == "closed.client":
+        vc.ensure("client_gone.gives_up", kinds == ["CloseConnection"] and out.trace[0].connection is ctx.client)
+    elif kind == "data.undecided":
+        vc.ensure("data.asks_once", kinds == ["NextLayerHook"])
+    else:
+        vc.ensure("nothing_emitted", kinds == [])
+
+
 # =============================================================================================
 # T2: the real Layer class with scripted generators under every interleaving of events and completions (bounded)
 
